@@ -8,3 +8,6 @@ def run(ctx):
     ctx.prove(["Props/%s.vo" % ctx.pid, "Run/eval_deps.vo"])
     ctx.trusted_base += depslib_trusted()
     depslib.run_engine_check(ctx, ctx.pid, 400 if ctx.quick else 6000, serial_bias=(ctx.pid == "C13"))
+    if ctx.pid == "C02":
+        from checks.c01 import contention
+        contention(ctx, parts=("invalid",))      # incl. the invalid-member probe (a call that panics must not leave named dependencies running)
